@@ -37,7 +37,28 @@ type Query { beasts: [Beast] any: [Any] beast: Beast one: Any }
 		r.Shuffle(len(vals), func(a, b int) { vals[a], vals[b] = vals[b], vals[a] })
 		q := &beasts.Query{Beasts: vals, Any: []interface{}{vals[2], vals[0], vals[1]}, Beast: vals[r.Intn(3)], One: vals[r.Intn(3)]}
 		root := ggql.NewRoot(&beasts.Schema{Query: q})
-		if err := root.ParseString(sdl); err != nil {
+		if i%4 == 3 {
+			// the @go directives arrive LATER, through extend blocks of a second document, after the root has already
+			// answered a request that met values of the (then unbound) Go types - whatever that request was answered
+			first := (`interface Beast { name: String }
+type Yak implements Beast { name: String hair: Int }
+type Emu implements Beast { name: String speed: Int }
+union Any = Yak | Emu
+type Query { beasts: [Beast] any: [Any] beast: Beast one: Any }
+`)
+			second := fmt.Sprintf("extend type Yak @go(type: %q) { extra: Int }\nextend type Emu @go(type: %q) { extra: Int }\n", yf, ef)
+			sdl = first + "# --- second document, loaded after a first request ---\n" + second
+			err := root.ParseString(first)
+			if err == nil {
+				run.Protect(func() { _ = root.ResolveString(`{ beasts { __typename name } any { __typename } beast { name } }`, "", nil) })
+				err = root.ParseString(second)
+			}
+			if err != nil {
+				c.Violation("c08-godir-schema", map[string]interface{}{"error": err.Error(), "sdl": sdl})
+				return
+			}
+			c.Count("roots_whose_go_directives_arrive_by_extension_after_a_first_request", 1)
+		} else if err := root.ParseString(sdl); err != nil {
 			c.Violation("c08-godir-schema", map[string]interface{}{"error": err.Error(), "sdl": sdl})
 			return
 		}
